@@ -226,6 +226,9 @@ pub enum RngKind {
     Period(Vec<u8>),
     /// 64-bit counter starting at the given value
     Counter(u64),
+    /// healthy ChaCha12 stream through `fill_bytes` / `next_*`, but `try_fill_bytes` reports an error (a source whose
+    /// non-blocking interface fails while the blocking one delivers)
+    TryFails(u64),
 }
 
 pub struct FaultRng {
@@ -237,7 +240,7 @@ pub struct FaultRng {
 
 impl FaultRng {
     pub fn new(kind: RngKind) -> Self {
-        let chacha = if let RngKind::Healthy(s) = &kind { Some(ChaCha12Rng::seed_from_u64(*s)) } else { None };
+        let chacha = if let RngKind::Healthy(s) | RngKind::TryFails(s) = &kind { Some(ChaCha12Rng::seed_from_u64(*s)) } else { None };
         let pos = if let RngKind::Counter(c) = &kind { *c } else { 0 };
         FaultRng { kind, chacha, pos, bytes_drawn: 0 }
     }
@@ -263,7 +266,7 @@ impl RngCore for FaultRng {
             panic!("external RNG drained: more than 4 MiB drawn by one call (rejection sampling on a stuck RNG?)");
         }
         match &self.kind {
-            RngKind::Healthy(_) => self.chacha.as_mut().unwrap().fill_bytes(d),
+            RngKind::Healthy(_) | RngKind::TryFails(_) => self.chacha.as_mut().unwrap().fill_bytes(d),
             RngKind::AllZero => d.fill(0),
             RngKind::AllOnes => d.fill(0xFF),
             RngKind::Period(p) => {
@@ -283,6 +286,9 @@ impl RngCore for FaultRng {
     }
 
     fn try_fill_bytes(&mut self, d: &mut [u8]) -> Result<(), rand_core::Error> {
+        if let RngKind::TryFails(_) = self.kind {
+            return Err(rand_core::Error::from(core::num::NonZeroU32::new(rand_core::Error::CUSTOM_START).unwrap()));
+        }
         self.fill_bytes(d);
         Ok(())
     }
